@@ -360,6 +360,20 @@ func exhaustiveC05(thorough bool, emit func(C05Case) bool) {
 		}
 	}
 	// multi-byte tokens at the start and inside of names, first and later trees
+	// twin names: sibling nodes and consecutive trees whose names differ in one byte
+	if !twinFields(func(a, b gen.B) bool {
+		ts := gen.TreeSpec{Parents: []int{0, 0, 0}, Names: []gen.B{a, b, a, b}, Dists: []gen.F{0, 1.5}}
+		return emit(C05Case{Trees: []gen.TreeSpec{ts, {Names: []gen.B{b}}, {Names: []gen.B{a}}, ts}, Sep: "\n"})
+	}) {
+		return
+	}
+	// nodes with 1023..4097 children (whole multiples of 1024 and their neighbours), at the root
+	// and one level down
+	for _, fan := range []int{255, 256, 1023, 1024, 1025, 2047, 2048, 2049, 3072, 4096, 4097} {
+		if !emit(C05Case{Trees: []gen.TreeSpec{{Shape: "broom", N: 1, Fan: fan}, {Shape: "broom", N: 2, Fan: fan, Names: []gen.B{gen.B("x"), gen.B("y z")}, Dists: []gen.F{0, 2.5}}}, Sep: "\n"}) {
+			return
+		}
+	}
 	for _, tok := range gen.HostileTokens {
 		for pos := 0; pos < 3; pos++ {
 			val := append(append(gen.B{}, tok...), 'x')
